@@ -70,6 +70,21 @@ fn handle(req: &Value) -> Value {
             let v = h::voronoi_from_raw_faces(n, &faces);
             voronoi_json(&v)
         }
+        "cell_face_labels" => {
+            // per 3D cell with face data: (neighbour(f), shift(f), vertex count) of every face, next to the stored VoronoiFaces whose left is that cell
+            let gens: Vec<DVec3> = req["gens"].as_array().unwrap().iter().map(v3).collect();
+            let periodic = req["periodic"].as_bool().unwrap_or(false);
+            let vi = meshless_voronoi::VoronoiIntegrator::build(&gens, None, v3(&req["anchor"]), v3(&req["width"]), Dimensionality::ThreeD, periodic);
+            let vor = Voronoi::from(&vi);
+            let wf = vi.with_faces();
+            let cells: Vec<Value> = wf.cells_iter().map(|c| {
+                let acc: Vec<Value> = (0..c.face_count()).map(|f| json!({"neighbour": c.neighbour(f), "shift": c.shift(f).map(j3), "n_vertices": c.face_vertex_count(f),
+                    "vertices": c.face_vertices(f)})).collect();
+                let stored: Vec<Value> = vor.faces().iter().filter(|fc| fc.left() == c.idx).map(|fc| json!({"right": fc.right(), "shift": fc.shift().map(j3)})).collect();
+                json!({"idx": c.idx, "accessors": acc, "stored_faces_with_this_left": stored, "n_vertices": c.vertices.len()})
+            }).collect();
+            json!({"cells": cells})
+        }
         "halfspace_clip" => {
             let hs = meshless_voronoi::HalfSpace::new(v3(&req["n"]), v3(&req["p"]), None, None);
             json!({"r": hs.clip(v3(&req["v"]))})
